@@ -42,6 +42,11 @@ CHECKS = {
     technique="z3 polynomial-identity check of each derived secular-matrix block / precursor block / MVP against the order-n coefficient of <I|H-E0|J> between intermediate states built explicitly on occupation bit strings (excitation operators on the normalised perturbed ground state, projection, S^-1/2 from X X S = 1); transpose relation between two real outputs; CrossHair on block_order",
     text="For all five variants, the blocks and orders of ADC(3) (quick: orders <=2, blocks with <=6 indices), subtract_gs on/off, every matrix element returned by the real code is shown equal to the explicit construction for all integrals, Fock matrices, amplitude values and bra/ket index assignments of the model; MVPs with the documented hidden-factor normalisation.",
     note="Ground-state corrections are free amplitude unknowns in adcgen's convention (C02/C12 tie them to RSPT). Models: n_o,n_v = max(2,#h/#p); thorough adds 3o3v for small blocks. mp partitioning only (as the property states)."),
+ "C05": dict(
+    level=TV, design="2/C05", engine="detref",
+    technique="z3 polynomial-identity check of each derived ISR expectation-value block contribution and transition moment against the order-n coefficient of the explicit matrix element (operator minus ground-state expectation value) between intermediate states / the normalised perturbed ground state built on occupation bit strings, contracted with free amplitude vectors using the documented normalisation",
+    text="For pp/ip/ea (thorough: dip/dea too) and the mixed ip/pp, pp/ea combinations, blocks of the two lowest classes, 1- and 2-particle operators, orders <=2, subtract_gs on/off, the scalar returned by the real code equals the explicit matrix-element contraction for all integrals, operator matrices, amplitude vectors and ground-state amplitudes of the model.",
+    note="Same parametrisation and models as C03. Operator strings with unequal numbers of creators/annihilators are covered for transition moments (default string per variant + one non-default)."),
 }
 NA_REASON = "check not built yet in this round (planned, see DESIGN.md section 2)"
 
